@@ -10,6 +10,7 @@ import (
 	"github.com/flowmatters/openwater-core/data"
 	_ "github.com/flowmatters/openwater-core/models"
 	"github.com/flowmatters/openwater-core/sim"
+	"pgregory.net/rapid"
 )
 
 // Cell is one parameter set: one entry per parameter of the model description, in
@@ -218,4 +219,79 @@ func ParamIndex(desc sim.ModelDescription, name string) int {
 		}
 	}
 	panic("no parameter " + name)
+}
+
+// CellCase is one single-cell run, JSON-serialisable.
+type CellCase struct {
+	Model  string
+	Cell   Cell
+	Inputs [][]float64 // [nInputs][T]
+	State  StateSpec
+}
+
+func (c CellCase) T() int {
+	if len(c.Inputs) == 0 {
+		return 0
+	}
+	return len(c.Inputs[0])
+}
+
+// RunOn runs one cell on an existing model object (re-applying the parameters, as a
+// driver would) and reports whether the parameter and input arrays were left unchanged.
+func RunOn(m sim.TimeSteppingModel, cell Cell, inputs [][]float64, states []float64) (out [][]float64, final []float64, touched string) {
+	desc := m.Description()
+	pm := ParamMatrix(desc, []Cell{cell})
+	pm0 := append([]float64(nil), pm.Unroll()...)
+	Prepare(m, pm)
+	var st data.ND2Float64
+	if states == nil {
+		st = m.InitialiseStates(1)
+	} else {
+		st = States2([][]float64{states}, len(states))
+	}
+	T := 0
+	if len(inputs) > 0 {
+		T = len(inputs[0])
+	}
+	in := Inputs3([][][]float64{inputs}, len(desc.Inputs), T)
+	in0 := append([]float64(nil), in.Unroll()...)
+	o := sim.InitialiseOutputs(m, T, 1)
+	m.Run(in, st, o)
+	out = make([][]float64, len(desc.Outputs))
+	for k := range out {
+		out[k] = make([]float64, T)
+		for t := 0; t < T; t++ {
+			out[k][t] = o.Get3(0, k, t)
+		}
+	}
+	if d := DiffBits("parameters", pm.Unroll(), pm0); d != "" {
+		touched = d
+	}
+	if d := DiffBits("inputs", in.Unroll(), in0); d != "" {
+		touched = d
+	}
+	return out, Row(st, 0), touched
+}
+
+// DiffOutputs compares two output sets bit-for-bit over the first n steps (n<0: all).
+func DiffOutputs(desc sim.ModelDescription, a, b [][]float64, n int) string {
+	for o := range a {
+		m := len(a[o])
+		if n >= 0 && n < m {
+			m = n
+		}
+		for t := 0; t < m; t++ {
+			if !SameBits(a[o][t], b[o][t]) {
+				return fmt.Sprintf("output %s[t=%d]: %v vs %v", desc.Outputs[o], t, a[o][t], b[o][t])
+			}
+		}
+	}
+	return ""
+}
+
+// DrawCellCase draws a single-cell case of the model.
+func DrawCellCase(t *rapid.T, name string, minT, maxT int) CellCase {
+	cell := DrawCell(t, name)
+	T := rapid.IntRange(minT, maxT).Draw(t, "T")
+	return CellCase{Model: name, Cell: cell, Inputs: DrawInputs(t, name, cell, T), State: DrawStates(t, name, cell)}
 }
